@@ -29,7 +29,10 @@ def build(shape: str, fault: dict | None, absent: str = "") -> dict:
                 continue
             steps: list = [("td", f"td:{p}:{phase}"), ("gate", "g"), ("td", f"td2:{p}:{phase}")]
             if fault and fault["path"] == p and fault["phase"] == phase:
-                steps.insert(1 if fault["pos"] == "before" else 2, ("fail", fault["cls"]))
+                steps.insert(1 if fault["pos"] == "before" else 2, ("bad-factory",) if fault["cls"] == "K" else ("fail", fault["cls"]))
+            elif fault and fault.get("handshake") and p != fault["path"] and not nd.get("children") and phase == "start" and p not in ancestors(fault["path"]):
+                # another component is suspended in start_service_task()'s handshake when the failure strikes
+                steps.insert(1, ("svc-hs", f"hs:{p}"))
             nd[phase] = steps
         if fault and fault["path"] == p and fault["phase"] == "ctor":
             nd["ctor_fail"] = fault["cls"]
@@ -60,13 +63,17 @@ class C07(E1Check):
             for p, nd in paths(SHAPES[shape]):
                 for phase in ("ctor", "prepare", "start"):
                     for pos in (("before",) if phase == "ctor" else ("before", "after")):
-                        for cls in ("E", "E2"):
+                        for cls in ("E", "E2", "K", "E+hs"):
+                            if cls == "K" and phase == "ctor":
+                                continue
                             for absent in ("", "noprep"):
                                 for timeout in ((5,) if tier == "quick" else (5, None)):
                                     if phase == "ctor" and (absent or timeout is None):
                                         continue
+                                    if cls == "E+hs" and (absent or len(paths(SHAPES[shape])) < 2):
+                                        continue
                                     progs.append({"kind": "fault", "shape": shape, "absent": absent, "timeout": timeout,
-                                                  "fault": {"path": p, "phase": phase, "pos": pos, "cls": cls}})
+                                                  "fault": {"path": p, "phase": phase, "pos": pos, "cls": cls.split("+")[0], "handshake": cls.endswith("+hs")}})
             for absent in ("", "noprep"):
                 progs.append({"kind": "timeout", "shape": shape, "absent": absent, "timeout": 5})
             progs.append({"kind": "timeout", "shape": shape, "absent": "", "timeout": 0})
@@ -95,6 +102,8 @@ class C07(E1Check):
         # one fault per execution: in component-failure programs the watchdog's timer is never offered
         env.offer_timers = program["kind"] == "timeout"
         env.inject_filter = (lambda o: o[0] == "timer") if program["kind"] == "timeout" else None
+        qpoints = env.data["qpoints"] = []
+        env.quiescent_hooks.append(lambda: qpoints.append(len(env.trace)))
         async with Context() as ctx:
             try:
                 inst = await start_component(tree.root_class, {}, timeout=program["timeout"])
@@ -123,7 +132,7 @@ class C07(E1Check):
         if end_idx is None:
             fail("no-outcome", "start_component neither returned nor raised")
             return
-        comp_events = ("ctor", "phase+", "phase-", "phase!", "passed", "td-reg", "failing")
+        comp_events = ("ctor", "phase+", "phase-", "phase!", "passed", "td-reg", "failing", "svc+", "svc-up", "svc-started")
         late = [ev for ev in tr[end_idx + 1:] if ev[0] in comp_events]
         if late:
             fail("still-running", f"component events after start_component had {tr[end_idx][0]}: {late[:4]}")
@@ -143,9 +152,17 @@ class C07(E1Check):
                 if f["phase"] == "ctor" and getattr(exc.component_type, "_vpath", None) != f["path"]:
                     fail("wrong-error", f"ComponentStartError.component_type is {exc.component_type!r} for a failure creating {f['path']!r}")
                 cause = exc.__cause__
-                want = CompFail if f["cls"] == "E" else CompFail2
+                want = CompFail if f["cls"] == "E" else KeyError if f["cls"] == "K" else CompFail2
                 if type(cause) is not want or not tree.raised or cause is not tree.raised[0]:
                     fail("wrong-cause", f"__cause__ is {cause!r}, the component raised {want.__name__}")
+            # siblings still starting are stopped: nothing has to complete before start_component raises - it has raised by the
+            # first quiescent point after the failure
+            fi = next((i for i, ev in enumerate(tr) if ev[0] == "failing"), None)
+            if fi is not None:
+                q = next((x for x in env.data["qpoints"] if x > fi), None)
+                if q is not None and end_idx >= q:
+                    fail("not-stopped", f"the failure happened at trace index {fi} but start_component had not raised at the next quiescent point "
+                                        f"(it raised at {end_idx}, after {[ev for ev in tr[q:end_idx] if ev[0] == 'env'][:3]})")
             for a in ancestors(f["path"]):
                 if any(ev[0] == "phase+" and ev[1] == a and ev[2] == "start" for ev in tr):
                     fail("ancestor-started", f"start() of ancestor {a!r} ran although {f['path']!r} failed")
@@ -176,6 +193,10 @@ class C07(E1Check):
                     fail("timeout-misfire", "the watchdog's timer was still pending after start_component had returned")
             else:
                 released = sum(1 for ev in tr[:timer_idx] if ev[:2] == ("env", "gate") and ev[2] != "after")
+                if released < n_gates and exc is not None:
+                    q = next((x for x in env.data["qpoints"] if x > timer_idx), None)
+                    if q is not None and end_idx >= q:
+                        fail("not-stopped", f"the time-out struck at trace index {timer_idx} but start_component had not raised at the next quiescent point")
                 if released < n_gates and exc is None:
                     fail("timeout-ignored", f"the timer fired while start-up still needed {n_gates - released} completion(s) but start_component returned normally")
             if exc is not None:
